@@ -342,15 +342,25 @@ func run1(in Sx) Sx {
 				p.RefuseWith(command, int32(arg.Int64()))
 			case 2:
 				p.Refuse(int32(arg.Int64()))
-			default:
+			case 3:
 				p.Reply(goValue(arg).(proto.Message))
+			default:
+				p.ReplyWith(command, goValue(arg))
 			}
 		})
 		if pn || len(e1.sent) == 0 {
 			return List(Int(0))
 		}
 		q := e1.sent[len(e1.sent)-1]
-		return List(Int(1), Int(int64(len(e1.sent))), hdrOfPkt(q).sx(), bodySx(q.Body()), Int(int64(q.Errno())))
+		return List(Int(1), Int(int64(len(e1.sent))), hdrOfPkt(q).sx(), bodySx(q.Body()), Int(int64(q.Errno())),
+			res(func() Sx { return Bytes(q.BodyToBytes()) }))
+	case 6:
+		p := packet.New(7, 1, fatchoy.PacketFlag(in.At(1).Int64()), goValue(in.At(2)))
+		return List(bodySx(p.Body()),
+			res(func() Sx { return Int(p.BodyToInt()) }),
+			res(func() Sx { return Uint(math.Float64bits(p.BodyToFloat())) }),
+			res(func() Sx { return Str(p.BodyToString()) }),
+			res(func() Sx { return Bytes(p.BodyToBytes()) }))
 	case 5:
 		var enc codec.Encoder
 		if in.At(1).AsInt() == 1 {
@@ -668,7 +678,10 @@ func gen(a Args, out *Out) {
 		if rng.Chance(1, 3) {
 			h.cmd = int32(rng.PickI64(idPingReq, idPingAck, idString, idInt64))
 		}
-		switch rng.Intn(4) {
+		switch rng.Intn(5) {
+		case 4:
+			g := genGov(rng, out)
+			emit("reply-value-"+kindOf(g), List(Int(4), h.sx(), Int(4), Int(command), g))
 		case 3:
 			g := genProto()
 			var mid int32
@@ -696,6 +709,11 @@ func gen(a Args, out *Out) {
 			Catch(func() { ack = packet.GetPairingAckID(h.cmd) })
 			emit("refuse", List(Int(4), h.sx(), Int(2), Int(int64(ack)), Int(genErrno(rng))))
 		}
+	}
+	// scenario 6: the constructor with a body of any supported kind
+	for i := 0; i < 100*scale; i++ {
+		g := genGov(rng, out)
+		emit("new-"+kindOf(g), List(Int(6), Uint(rng.Next()&0xff), g))
 	}
 	// scenario 5: a message crosses the wire and is decoded by its registered id
 	for i := 0; i < 120*scale; i++ {
